@@ -248,6 +248,40 @@ def run(ctx, scale=1):
                 rep.finding("case:combination-only", "%r parses differently from %r" % (sql[:140], bsql[:110]),
                             {"kind": "pair", "base": bsql, "variant": sql})
 
+    # ---- the same gap edits through the other seven cached parsers (dialects x all_columns): each has its own
+    # whitespace engine, built at a different moment
+    others = [(d, ac) for d in ("common", "mysql", "sqlserver", "bigquery") for ac in (None, "*") if (d, ac) != ("common", None)]
+    ojobs, ometa = [], []
+    for si in rng.sample(range(len(stmts)), min(len(stmts), (70 if ctx.quick else 600) * scale)):
+        toks = stmts[si][1]
+        d, ac = rng.choice(others)
+        kw = {"all_columns": ac} if ac else {}
+        ojobs.append((GT.text(toks), d, kw))
+        ometa.append(("base", si, d, ac, None, None))
+        for i in rng.sample(range(len(toks) - 1), min(len(toks) - 1, 10)):
+            f = rng.choice(COMMENT_FILLERS)
+            ojobs.append((GT.text(toks, {i: f}), d, kw))
+            ometa.append(("gap", si, d, ac, i, f))
+    oouts = C.parse_many(ojobs)
+    obase = {}
+    for mt, o in zip(ometa, oouts):
+        if mt[0] == "base":
+            obase[(mt[1], mt[2], mt[3])] = o
+    for (job, mt, o) in zip(ojobs, ometa, oouts):
+        if mt[0] == "base":
+            rep.count("other_parsers", "%s/%s" % (mt[2], mt[3]))
+            continue
+        bo = obase[(mt[1], mt[2], mt[3])]
+        if not bo.startswith('{"ok"'):
+            continue
+        rep.case(job[0] + "|" + mt[2] + str(mt[3]))
+        rep.count("variant", "gap-comment-other-parser")
+        if o != bo:
+            toks = stmts[mt[1]][1]
+            ck = ctx_key(toks, mt[4])
+            rep.finding(KNOWN_RULE, "%s all_columns=%r: %r -> %s  but  %r -> %s" % (mt[2], mt[3], GT.text(toks)[:100], bo[:100], job[0][:130], o[:100]),
+                        {"kind": "pair", "base": GT.text(toks), "variant": job[0], "dialect": mt[2], "all_columns": mt[3]}, sub=ck)
+
     # ---- oracle on the corpus: whitespace runs found by the independent lexer
     keywords = set(gen.get("keyword_words", []))
     reserved = set(gen.get("reserved_words", []))
@@ -331,8 +365,10 @@ def search(ctx):
 def replay(ctx, p):
     R = C.real()
     d = p.get("dialect", "common")
-    a = C.cdump(R.parse(p["base"], d))
-    b = C.cdump(R.parse(p["variant"], d))
+    kw = {"all_columns": p["all_columns"]} if p.get("all_columns") else {}
+    R.parse("select 1")          # the common parser is built first, as in the check
+    a = C.cdump(R.parse(p["base"], d, **kw))
+    b = C.cdump(R.parse(p["variant"], d, **kw))
     print(a)
     print(b)
     return a != b
